@@ -25,6 +25,7 @@ class Hits:
         self.denied_call = []     # a policy-denied callable ran
         self.allowed_call = []
         self.keys_calls = []      # `.keys()` ran (dict(kwargs) in _handle_call)
+        self.special = []         # __iter__/__getitem__/__lt__/__gt__/__rsub__/__index__ of a canary ran
         self.state_writes = []
 
 
@@ -107,7 +108,16 @@ class Thing(metaclass=CanaryMeta):
         return 42
 
     def __iter__(self):
+        HITS.special.append((object.__getattribute__(self, "tag"), "__iter__"))
         return iter((1, 2))
+
+    def __gt__(self, other):
+        HITS.special.append((object.__getattribute__(self, "tag"), "__gt__"))
+        return True
+
+    def __rsub__(self, other):
+        HITS.special.append((object.__getattribute__(self, "tag"), "__rsub__"))
+        return 0
 
     def __bool__(self):
         return True
@@ -119,11 +129,13 @@ class Thing(metaclass=CanaryMeta):
         return False
 
     def __getitem__(self, k):
+        HITS.special.append((object.__getattribute__(self, "tag"), "__getitem__"))
         if type(k) is slice:
             return (k.start, k.stop)
         return k
 
     def __lt__(self, other):
+        HITS.special.append((object.__getattribute__(self, "tag"), "__lt__"))
         return True
 
     def __eq__(self, other):
@@ -301,7 +313,7 @@ class Session:
         self._saved_time = rpyc.lib.time
         rpyc.lib.time = self.net.clock
         rt.HITS = HITS
-        for lst in (HITS.denied_attr, HITS.denied_call, HITS.allowed_call, HITS.keys_calls, HITS.state_writes,
+        for lst in (HITS.denied_attr, HITS.denied_call, HITS.allowed_call, HITS.keys_calls, HITS.special, HITS.state_writes,
                     rt.PICKLE_LOG, rt.IMPORT_LOG, IMPORTED):
             del lst[:]
         self.modules_before = set(sys.modules)
@@ -591,7 +603,7 @@ class Gen:
             return self.ref()
         if k == 5:
             return self.remote()
-        return (1, r.choice([(), (1,), (1, 2), "ab", 5, None, b"ab", frozenset([3])]))
+        return (1, r.choice([(), (1,), (1, 2), "ab", 5, None, b"ab", frozenset([3]), "", b"", frozenset(), 1.5, True]))
 
     def handler_args(self, h):
         r = self.r
@@ -615,7 +627,9 @@ class Gen:
         elif h == 14:
             items = [obj(), (1, r.choice([0, 2, -1, None, "x"]))]
         elif h == 15:
-            items = [obj()] + ([(1, r.choice([1, 0, 2, -1, 100, True, 1.5, "1", None, (1,)]))] if r.chance(1, 2) else [])
+            cnt = [(1, r.choice([1, 1, 0, 2, -1, 100, True, False, 1.5, 1.0, "1", b"1", None, (1,), frozenset([1]), 1 + 0j])),
+                   self.ref(), self.remote(), (2, ((1, 1),)), (1, 1)]
+            items = [obj()] + ([r.choice(cnt)] if r.chance(2, 3) else [])
         elif h == 16:
             items = [(1, self.idpack())]
         elif h == 17:
@@ -652,7 +666,7 @@ class Gen:
         if k == 4:
             return self.ref()
         if k == 5:
-            return (1, r.choice([5, "ab", ((1, 2),), (1, 2), None, ("ab", "cd")]))
+            return (1, r.choice([5, "ab", ((1, 2),), (1, 2), None, ("ab", "cd"), b"ab", frozenset([("a", 1)]), "", frozenset(), True]))
         if k == 6:
             return self.remote()
         return (2, ((2, ((1, "k"), self.ref())),))
@@ -827,6 +841,7 @@ def run_session(rng, n_bursts, config=None, cfg_text="default"):
         s.final_model_line = s.model_line(cfg_text)
         s.gen = g
         s.hits = dict(denied_attr=list(HITS.denied_attr), denied_call=list(HITS.denied_call), keys=list(HITS.keys_calls),
+                      special=list(HITS.special),
                       state_writes=list(HITS.state_writes), pickle=list(rt.PICKLE_LOG), imports=list(rt.IMPORT_LOG),
                       imported=list(IMPORTED), new_modules=sorted(m for m in set(sys.modules) - s.modules_before
                                                                  if not m.startswith("encodings")),
